@@ -745,7 +745,9 @@ where
         if length.is_defined() && length.0 & 1 != 0 {
             match self.options.odd_length {
                 OddLengthStrategy::Accept => Some(length),
-                OddLengthStrategy::NextEven => Some(length + 1),
+                // the length is defined and odd, so this can neither overflow
+                // nor reach the undefined length marker
+                OddLengthStrategy::NextEven => Some(Length(length.0 + 1)),
                 OddLengthStrategy::Fail => None,
             }
         } else {
